@@ -37,6 +37,9 @@ func genScen(r *hutil.Rng, id int, malformed bool) Scen {
 	sc.ResMode = make([]int, sc.NRes+1)
 	sc.ConnPat = make([][]int, sc.NRes+1)
 	sc.DelPat = make([][]int, sc.NRes+1)
+	sc.CommitPat = make([][]int, sc.NRes+1)
+	// some callers pass a context that is cancelled or expires (a refused call is not a lost one)
+	ctxy := r.Chance(1, 4)
 	for k := 1; k <= sc.NRes && !tight; k++ {
 		if r.Chance(1, 4) {
 			sc.ResMode[k] = 1
@@ -46,6 +49,7 @@ func genScen(r *hutil.Rng, id int, malformed bool) Scen {
 		}
 		sc.ConnPat[k] = pattern(r, []int{1}, burst)
 		sc.DelPat[k] = pattern(r, []int{1, 2, 3, 3, 4, 5, 6}, false)
+		sc.CommitPat[k] = pattern(r, []int{1, 1, 2}, false)
 	}
 	nb := 1 + r.Intn(4)
 	branches := make([]int64, nb)
@@ -89,6 +93,10 @@ func genScen(r *hutil.Rng, id int, malformed bool) Scen {
 			q.Lane = 0
 		} else if r.Chance(1, 2) {
 			q.PauseUs = r.Intn(2000 * iv)
+		}
+		if ctxy && r.Chance(1, 2) {
+			q.Ctx = 1 + r.Intn(2)
+			q.CtxUs = pick(r, 1, 50, 500, 5000)
 		}
 		sc.Reqs = append(sc.Reqs, q)
 		if malformed && r.Chance(1, 6) { // duplicate request
